@@ -62,6 +62,20 @@ def gen_pair(fam, mode, emb, types=None, maxlen=None, depth=None, slots=None):
     return j
 
 
+MC_MM = {"module": "MC_MinMax", "cfg": "MC_MinMax.cfg", "overrides": {"MaxLen": ("3", "3")}}
+
+
+def gen_mm(mode, maxlen=None, depth=None, slots=None):
+    ov = {}
+    if maxlen:
+        ov["MaxLen"] = maxlen
+    if depth:
+        ov["MaxDepth"] = depth
+    if slots:
+        ov["Slots"] = slots
+    return {"module": "Gen_MinMax", "cfg": "Gen_MinMax_%s.cfg" % mode, "overrides": ov, "family": "minmax", "embeddings": "1,1e-30,1e30"}
+
+
 PROPS = {
     "C01": {
         "title": "streaming mean/variance equal the exact statistics",
@@ -114,8 +128,8 @@ PROPS = {
     },
     "C11": {
         "title": "the empty estimator is an exact identity of merge; lengths add exactly",
-        "mc": [MC_W, MC_C, MC_MERGE],
-        "replay": [gen_pair("Weighted", "hist", "E0:W0,E5:W2", depth=("3", "4")), gen_pair("Covariance", "hist", "E0:E0,E3:E5", depth=("3", "4")), gen_hist(ALLM, "E0,E3,E5"), gen_tree(ALLM, "E0")],
+        "mc": [MC_MM, MC_W, MC_C, MC_MERGE],
+        "replay": [gen_mm("hist", depth=("3", "4")), gen_pair("Weighted", "hist", "E0:W0,E5:W2", depth=("3", "4")), gen_pair("Covariance", "hist", "E0:E0,E3:E5", depth=("3", "4")), gen_hist(ALLM, "E0,E3,E5"), gen_tree(ALLM, "E0")],
         "rule": "every add/merge/clone/fresh/checkpoint history to the depth bound over two slots; at every merge the "
                 "destination's and source's full accessor vectors are compared bit for bit before/after",
         "bounds": {"quick": "depth <= 4", "thorough": "depth <= 5"},
@@ -124,7 +138,7 @@ PROPS = {
     "C16": {
         "title": "empty, one-observation and constant samples follow the documented contract",
         "mc": [MC_W1, MC_C1, MC_SEQ, MC_MERGE],
-        "replay": [gen_pair("Weighted", "seq", "E0:W0,E5:W2", maxlen=("4", "5")), gen_pair("Covariance", "seq", "E0:E0,E3:E5", maxlen=("4", "5")), gen_seq(ALLM, E05), gen_hist(ALLM, "E0")],
+        "replay": [gen_mm("hist", depth=("3", "3")), gen_pair("Weighted", "seq", "E0:W0,E5:W2", maxlen=("4", "5")), gen_pair("Covariance", "seq", "E0:E0,E3:E5", maxlen=("4", "5")), gen_seq(ALLM, E05), gen_hist(ALLM, "E0")],
         "rule": "every accessor of every type at n = 0..4 and on every constant sequence in the enumerated set, sentinel class "
                 "or exact value required",
         "bounds": {"quick": "L <= 5", "thorough": "L <= 7"},
@@ -142,7 +156,7 @@ PROPS = {
     "C18": {
         "title": "a serde round trip at any point is invisible",
         "mc": [MC_MERGE],
-        "replay": [gen_pair("Weighted", "hist", "E0:W0,E5:W2", depth=("3", "4")), gen_pair("Covariance", "hist", "E0:E0,E3:E5", depth=("3", "4")), gen_hist(ALLM, "E0,E3,E5", depth=("5", "6"), slots=("{1}", "{1, 2}")), gen_hist(ALLM, "E0,E5")],
+        "replay": [gen_mm("hist", depth=("3", "4")), gen_pair("Weighted", "hist", "E0:W0,E5:W2", depth=("3", "4")), gen_pair("Covariance", "hist", "E0:E0,E3:E5", depth=("3", "4")), gen_hist(ALLM, "E0,E3,E5", depth=("5", "6"), slots=("{1}", "{1, 2}")), gen_hist(ALLM, "E0,E5")],
         "rule": "every history with checkpoints at every position; two real executions (with / without the JSON round trip) "
                 "compared bit for bit on every accessor",
         "bounds": {"quick": "depth <= 5 one slot, depth <= 4 two slots", "thorough": "depth <= 6 / 5"},
@@ -171,5 +185,15 @@ PROPS = {
                 "swapped pairs is checked against the swapped specification values",
         "bounds": {"quick": "seq L <= 4; tree L <= 3, K <= 3; hist depth <= 3", "thorough": "seq L <= 5; tree L <= 4; hist depth <= 4"},
         "assumptions": ["as C01"],
+    },
+    "C14": {
+        "title": "Min and Max return the exact extreme of everything seen, in any order",
+        "mc": [MC_MM],
+        "replay": [gen_mm("seq", maxlen=("5", "6")), gen_mm("tree", maxlen=("3", "4")), gen_mm("hist", depth=("3", "4"))],
+        "rule": "every sequence over the seven tokens {-inf,-1,-0.0,0.0,1,+inf,NaN} up to the length bound (all permutations are "
+                "among them), every chunking into <= 3 chunks and merge order/direction, arbitrary histories with from_value; "
+                "collect/extend ingestion on every add-only slot; finite tokens at scales 1, 1e-30, 1e30",
+        "bounds": {"quick": "seq L <= 5; tree L <= 3; hist depth <= 3", "thorough": "seq L <= 6; tree L <= 4; hist depth <= 4"},
+        "assumptions": ["-0.0 and 0.0 are the same number (the property says 'as numbers')"],
     },
 }
